@@ -55,11 +55,21 @@ class Obligation:
 class QAssume:
     """universally quantified hypothesis, instantiated by the engine (no quantifier reaches the solver)"""
 
-    __slots__ = ("fn", "name")
+    __slots__ = ("_fn", "name", "cache")
 
     def __init__(self, fn, name=""):
-        self.fn = fn  # python callable: z3 Int term -> z3 Bool (or python bool)
+        self._fn = fn  # python callable: z3 Int term -> z3 Bool (or python bool)
         self.name = name
+        self.cache = {}
+
+    def fn(self, t):
+        k = t.get_id()
+        r = self.cache.get(k)
+        if r is None:
+            r = self._fn(t)
+            self.cache[k] = (r, t)  # keep t alive so ids are not reused
+            return r
+        return r[0]
 
 
 _fresh = itertools.count()
